@@ -1047,8 +1047,9 @@ class OdeSystem(object):
                         try:
                             active_events, roots, end_int, evs = handle_events(sol_tuple, events, self.constants, direction, is_terminal, (requires_dstate,))
                         except BaseException:
-                            # the step is not recorded: its interpolant goes with it
-                            self.__sol.remove_interpolant(-1 if dTime >= 0 else 0)
+                            # the step is not recorded: its interpolants (several for a sub-divided step) go with it
+                            while len(self.__sol) > __pre_length:
+                                self.__sol.remove_interpolant(-1 if dTime >= 0 else 0)
                             raise
 
                         if self.counter + len(roots) + 1 >= len(self.__y):
@@ -1071,9 +1072,10 @@ class OdeSystem(object):
                                     self.__events.append(ev_state)
 
                         if end_int:
-                            # the step is rolled back: its interpolant goes with it, the integration up to
-                            # the event records its own pieces
-                            self.__sol.remove_interpolant(-1 if dTime >= 0 else 0)
+                            # the step is rolled back: its interpolants (several for a sub-divided step) go with
+                            # it, the integration up to the event records its own pieces
+                            while len(self.__sol) > __pre_length:
+                                self.__sol.remove_interpolant(-1 if dTime >= 0 else 0)
                             self.integrate(roots[-1])
                             self.__int_status = 2
                         else:
